@@ -21,7 +21,7 @@ RULE = (
 )
 ASSUMPTIONS = ["queries over user-created dask.delayed objects are excluded from cross-process comparison (delayed keys are random unless the user asks for pure=True)",
                "the documented cache slot _dataset_info_cache is not part of an expression's identity"]
-BUDGET_S = {"quick": 175, "thorough": 3000}
+BUDGET_S = {"quick": 175, "thorough": 900}
 NO_FRESH_CONFIRM = True
 MINIMISE_EVALS = {"quick": 12, "thorough": 100}
 BATCH = 8
